@@ -14,7 +14,7 @@ RULE = ('every BSD syscall / Mach trap decoder (all BSC_* and MSC_* names, all o
         'no other word of the START or END record; (1) changing only START word k never changes the call name, the '
         'arity or a numeric parameter at another position; (3) an enum-named parameter is injective over its domain; '
         '(4) the call part is unchanged when only the END record, the thread id, the timestamps or unrelated nested '
-        'records change, when a stray END precedes the window, when an earlier unterminated START of the same call exists, and when another thread listed in the '
+        'records (among them the undecoded names of the call\'s own family, e.g. *_extended_info) change, when a stray END precedes the window, when an earlier unterminated START of the same call exists, and when another thread listed in the '
         'thread map enters the same call meanwhile, and when the window is requested as a dump through PyKdebugParser.traces under class / subclass '
         'filter sets that select the call (path-taking calls); '
         '(5) sentinel: with one START word set to a value that is special somewhere (AT_FDCWD 0xfffffffe, -1, -2, 0, 1, INT_MAX, 2^31, 2^32, ...) '
@@ -174,7 +174,7 @@ def prop_decoder(ctx, case):
     e2 = list(S.expand_words(seed + 99, 3))
     de = domains.project(name, 2, e2)
     e2 = [int.from_bytes(de[8 * i:8 * i + 8], 'little') for i in range(4)]
-    nested = [SC.junk(0x44, seed, 1), SC.junk(0x44, seed, 2)]
+    nested = [SC.junk(0x44, seed, 1), SC.junk(0x44, seed, 2)] + [SC.ev(0x44, n, (seed + i) % 4 if (seed + i) % 4 != 2 else 0, seed, 3 + i) for i, n in enumerate(EV.family_lookalikes(name))]
     txt2 = guard(render, name, a, e2, lookups, tid=0x44, ts0=999999, nested=nested, stray_end=True)
     sc2 = TP.split_call(txt2)
     if sc2 is None or (sc2[0], sc2[1]) != (cname, params):
